@@ -127,7 +127,8 @@ def rule_newline_neutral(chk: Check, ix: Index):
     chk.require(ok, "N4-newline-neutral", "next_psuedo_matches:NL-vs-NEWLINE", f.where,
                 "a line end inside brackets must be NL, and NEWLINE only at bracket depth 0, so a statement ends with depth 0")
     # in f-string middle mode nothing but the f-string scanner runs
-    first = f.node.body[0]
+    body0 = [st for st in f.node.body if not (isinstance(st, ast.Expr) and isinstance(st.value, ast.Constant))]
+    first = body0[0] if body0 else f.node.body[0]
     chk.count("N4-newline-neutral")
     chk.require(isinstance(first, ast.If) and "state.in_fstring()" in norm_stmt(first.test), "N4-newline-neutral",
                 "next_psuedo_matches:fstring-guard", f.where,
